@@ -342,14 +342,20 @@ def specPy01 : String → Option Py
   -- interval 3.0, dt 1.0; wave amplitude H0, period H1
   | "Delay" => some (.ite (memoCall "__h0__" (.bin .sub (.name "t") (.num "3.0")))
       (.bin .ge (.bin .sub (.name "t") (.num "3.0")) (.num "0.0")) (.num "1.5"))
-  | "Pulse[first]" => some (.ite (.bin .div h0 (.num "1.0"))
-      (.bin .lt (.call (.name "abs") [.bin .sub (.name "t") (.num "2.0")]) (.bin .div (.num "1.0") (.num "2"))) (.num "0.0"))
-  | "Pulse[interval]" =>
-      let x : Py := .bin .sub (.name "t") (.num "2.0")
+  | "Pulse[first]" =>
+      let d : Py := .bin .sub (.name "t") (.num "2.0")
       some (.ite (.bin .div h0 (.num "1.0"))
-        (.bin .and (.bin .gt x (.bin .div (.neg (.num "1.0")) (.num "2")))
-          (.bin .lt (.call (.name "abs") [.bin .sub x (.bin .mul (.num "3.0") (.call (.name "round") [.bin .div x (.num "3.0")]))])
-            (.bin .div (.num "1.0") (.num "2"))))
+        (.bin .and (.bin .gt d (.bin .mul (.neg (.num "1.0")) (.num "0.499999999")))
+          (.bin .le d (.bin .mul (.num "1.0") (.num "0.500000001"))))
+        (.num "0.0"))
+  | "Pulse[interval]" =>
+      let d : Py := .bin .sub (.name "t") (.num "2.0")
+      let x : Py := .bin .sub d (.bin .mul (.num "3.0") (.call (.attr (.name "math") "ceil")
+        [.bin .div (.bin .sub d (.bin .mul (.num "1.0") (.num "0.500000001"))) (.num "3.0")]))
+      let lo : Py := .bin .mul (.neg (.num "1.0")) (.num "0.499999999")
+      let hi : Py := .bin .mul (.num "1.0") (.num "0.500000001")
+      some (.ite (.bin .div h0 (.num "1.0"))
+        (.bin .and (.bin .and (.bin .gt d lo) (.bin .gt x lo)) (.bin .le x hi))
         (.num "0.0"))
   | "Sinwave" => some (.bin .mul (.call (.attr (.name "np") "sin")
       [.bin .mul (.bin .div (.bin .mul (.num "2") (.attr (.name "np") "pi")) h1)
@@ -409,13 +415,18 @@ theorem trend_sem (C : TC α) (hG : GridOK C) (W : String → Nat → α) (ρ : 
   rw [ht k]
   simp [evalM, ref_now C hG W ρ]
 
-/-- PULSE(volume, first) without interval: `volume/dt` exactly when the time is within `dt/2` of `first` -/
-theorem pulse_first_sem (C : TC α) (W : String → Nat → α) (ρ : Nat → α) (k : Nat) (first dt2 : String) :
-    evalM C W ρ k (.ite (.bin .div (.hole 0) (.num dt2))
-        (.bin .lt (.call (.name "abs") [.bin .sub (.name "t") (.num first)]) (.bin .div (.num dt2) (.num "2"))) (.num "0.0")) =
-      if C.truthy (C.bin .lt (C.call (C.name "abs") [C.bin .sub (C.time k) (C.num first)]) (C.bin .div (C.num dt2) (C.num "2")))
-      then C.bin .div (ρ 0) (C.num dt2) else C.num "0.0" := by
-  simp [evalM, evalML, isMemoize]
+/-- PULSE(volume, first) without interval: `volume/dt` exactly when `first` lies in the half-open window
+`(t - dt/2, t + dt/2]` around the time (so exactly one grid point carries the pulse) -/
+theorem pulse_first_sem (C : TC α) (W : String → Nat → α) (ρ : Nat → α) (k : Nat) (first dtl : String) :
+    let d : Py := .bin .sub (.name "t") (.num first)
+    evalM C W ρ k (.ite (.bin .div (.hole 0) (.num dtl))
+        (.bin .and (.bin .gt d (.bin .mul (.neg (.num dtl)) (.num "0.499999999")))
+          (.bin .le d (.bin .mul (.num dtl) (.num "0.500000001")))) (.num "0.0")) =
+      if C.truthy (C.bin .and
+          (C.bin .gt (C.bin .sub (C.time k) (C.num first)) (C.bin .mul (C.neg (C.num dtl)) (C.num "0.499999999")))
+          (C.bin .le (C.bin .sub (C.time k) (C.num first)) (C.bin .mul (C.num dtl) (C.num "0.500000001"))))
+      then C.bin .div (ρ 0) (C.num dtl) else C.num "0.0" := by
+  simp [evalM]
 
 /-! ### `_lookup`: clamped linear interpolation -/
 
